@@ -33,6 +33,11 @@
 //!   handle) a future, a function and a stop are sent through the OWNER `Arbiter` object — from the
 //!   director's thread (no System there) or from a task on the system thread (a live System whose own
 //!   arbiter is running): all three report false and nothing starts anywhere.
+//! * C10 `runner plain|block` + `dropsys`: the System's runner is never `run`: it is kept idle (`plain`: the
+//!   controller is never polled, as with `let _ = System::new();`) or driven by `block_on` (`block`: the
+//!   controller sees the arbiters' registrations) and DROPPED, without any `System::stop()`, where `dropsys`
+//!   stands in the command sequence (at the end otherwise).  Arbiters are independent of their System's
+//!   lifetime: nobody stopped them, so they go on accepting and running commands until they are stopped.
 //! * `case <name> c09|c10 rt=custom`: `System::with_tokio_rt` / `Arbiter::with_tokio_rt` with a
 //!   caller-built runtime instead of `System::new` / `Arbiter::new`.
 use std::{
@@ -159,6 +164,8 @@ enum Cmd10 {
     Stop { arb: usize, via: Via },
     Wait { task: usize },
     Open { task: usize },
+    /// the System's runner is dropped now (`runner plain|block` scenarios)
+    DropSys,
 }
 
 #[derive(Default)]
@@ -198,6 +205,10 @@ struct Scenario {
     selfjoined: Vec<(usize, usize)>,
     /// c10: `Arbiter::new` targets that get a `blocking` task (ascending)
     blocked: Vec<usize>,
+    /// c10: `runner plain` (Some(false)) / `runner block` (Some(true)): the runner is not run but dropped
+    runner_mode: Option<bool>,
+    /// c10: a `dropsys` line exists
+    dropsys: bool,
     stopped: Vec<bool>, // c10: a stop command exists for this arbiter
 }
 
@@ -1225,13 +1236,16 @@ struct Sys10 {
     sys_thread: thread::ThreadId,
     arbs: Vec<Arbiter>,
     res_rx: mpsc::Receiver<Result<i32, String>>,
+    /// `runner plain|block`: makes the system thread drop the runner / tells when that is done
+    drop_tx: Option<tokio::sync::oneshot::Sender<()>>,
+    dropped_rx: mpsc::Receiver<()>,
 }
 
 /// A System on a fresh OS thread, with `narb` arbiters.  `host = (n, kept)`: before that, the same
 /// thread hosts `n` other Systems one after the other, each of which does a little work (a local task;
 /// every other one also an arbiter that comes and goes); their runners are kept alive until the
 /// thread ends, or dropped at once.
-fn start_system(narb: usize, host: Option<(usize, bool)>, custom: bool, slow: bool) -> Result<Sys10, Out> {
+fn start_system(narb: usize, host: Option<(usize, bool)>, custom: bool, slow: bool, runner_mode: Option<bool>) -> Result<Sys10, Out> {
     let fail = |what: &str, t3: bool| Out {
         log: format!("setup={what}"),
         verdict: format!("setup={what}"),
@@ -1240,6 +1254,8 @@ fn start_system(narb: usize, host: Option<(usize, bool)>, custom: bool, slow: bo
     let (setup_tx, setup_rx) = mpsc::channel();
     let (locked_tx, locked_rx) = mpsc::channel::<()>();
     let (res_tx, res_rx) = mpsc::channel();
+    let (drop_tx, drop_rx) = tokio::sync::oneshot::channel::<()>();
+    let (dropped_tx, dropped_rx) = mpsc::channel::<()>();
     thread::spawn(move || {
         let mut kept = vec![];
         let lock = ID_LOCK.read().unwrap_or_else(|e| e.into_inner());
@@ -1263,13 +1279,30 @@ fn start_system(narb: usize, host: Option<(usize, bool)>, custom: bool, slow: bo
         let arbs: Vec<Arbiter> = (0..narb).map(|i| new_arbiter(custom, slow && i + 1 == narb)).collect();
         drop(lock);
         let _ = setup_tx.send((sys, thread::current().id(), arbs));
-        let r = runner.run_with_code().map_err(|e| e.to_string());
+        let r = match runner_mode {
+            None => runner.run_with_code().map_err(|e| e.to_string()),
+            // the runner is not run: idle, or driven by `block_on` (the controller is polled and registers the
+            // arbiters) until the director says so; then dropped, with no `System::stop()` anywhere
+            Some(block) => {
+                if block {
+                    runner.block_on(async move {
+                        actix_rt::time::sleep(Duration::from_millis(1)).await;
+                        let _ = drop_rx.await;
+                    });
+                } else {
+                    let _ = drop_rx.blocking_recv();
+                }
+                drop(runner);
+                let _ = dropped_tx.send(());
+                Ok(0)
+            }
+        };
         let _ = res_tx.send(r);
         drop(kept);
     });
     locked_rx.recv_timeout(LOCK_WAIT).map_err(|_| fail("blocked", false))?;
     let (sys, sys_thread, arbs) = setup_rx.recv_timeout(4 * WATCHDOG).map_err(|_| fail("hang", true))?;
-    Ok(Sys10 { sys, sys_thread, arbs, res_rx })
+    Ok(Sys10 { sys, sys_thread, arbs, res_rx, drop_tx: runner_mode.map(|_| drop_tx), dropped_rx })
 }
 
 fn short<T: std::fmt::Debug>(v: &[T]) -> String {
@@ -1286,7 +1319,7 @@ fn exec_c10(sc: &Scenario, jseed: u64) -> Out {
     let nreal = narb - sc.sys_idx.map_or(0, |_| 1);
     let mut rng = Rng::new(jseed);
     let mut t3: Vec<(String, String)> = vec![];
-    let Sys10 { sys, sys_thread, arbs, res_rx } = match start_system(nreal, sc.host, sc.custom_rt, sc.slow_rt) {
+    let Sys10 { sys, sys_thread, arbs, res_rx, mut drop_tx, dropped_rx } = match start_system(nreal, sc.host, sc.custom_rt, sc.slow_rt, sc.runner_mode) {
         Ok(x) => x,
         Err(out) => return out,
     };
@@ -1406,6 +1439,14 @@ fn exec_c10(sc: &Scenario, jseed: u64) -> Out {
                 waits.push((*task, ok));
             }
             Cmd10::Open { task } => log.open(*task),
+            Cmd10::DropSys => {
+                if let Some(tx) = drop_tx.take() {
+                    let _ = tx.send(());
+                    if dropped_rx.recv_timeout(WATCHDOG).is_err() {
+                        t3.push(("C10".into(), format!("dropping the SystemRunner did not return within {WATCHDOG:?}")));
+                    }
+                }
+            }
         }
     }
     log.open_all();
@@ -1573,6 +1614,10 @@ fn exec_c10(sc: &Scenario, jseed: u64) -> Out {
     let post: Vec<bool> = handles.iter().map(|h| h.spawn_fn(|| {})).collect();
     let post_stop: Vec<bool> = handles.iter().map(|h| h.stop()).collect();
     thread::sleep(Duration::from_micros(300));
+    // (a runner that is never run is dropped at the latest here)
+    if let Some(tx) = drop_tx.take() {
+        let _ = tx.send(());
+    }
     sys.stop();
     let sys_res = res_rx.recv_timeout(WATCHDOG);
     // the system's runtime is gone: the futures its LocalSet owned have been dropped
@@ -1789,7 +1834,7 @@ fn count_pre(sc: &Scenario, a: usize) -> usize {
 fn exec_ident(sc: &Scenario) -> Out {
     let narb = sc.narb;
     let mut t3 = vec![];
-    let Sys10 { sys, sys_thread, arbs, res_rx } = match start_system(narb, sc.host, sc.custom_rt, sc.slow_rt) {
+    let Sys10 { sys, sys_thread, arbs, res_rx, .. } = match start_system(narb, sc.host, sc.custom_rt, sc.slow_rt, None) {
         Ok(x) => x,
         Err(out) => return out,
     };
@@ -2206,6 +2251,28 @@ fn feed(sc: &mut Scenario, ws: &[&str]) -> LineRes {
             sc.done = true;
             LineRes::GoC09 { mode_run, block, j: j as u64, head: format!("{m} j={j}") }
         }
+        (10, ["runner", m]) => {
+            let block = match *m {
+                "plain" => false,
+                "block" => true,
+                _ => return bad(),
+            };
+            // first line of the case; `Arbiter::new` targets only (the system arbiter goes with the runner)
+            if sc.runner_mode.is_some() || sc.host.is_some() || sc.narb > 0 || sc.nlines > 0 {
+                return bad();
+            }
+            sc.runner_mode = Some(block);
+            LineRes::Plain("ok".into())
+        }
+        (10, ["dropsys"]) => {
+            if sc.runner_mode.is_none() || sc.dropsys || sc.narb == 0 || sc.nlines >= MAX_LINES {
+                return bad();
+            }
+            sc.dropsys = true;
+            sc.nlines += 1;
+            sc.cmds.push(Cmd10::DropSys);
+            LineRes::Plain("ok".into())
+        }
         (10, ["host", n, mode]) => {
             let keep = match *mode {
                 "kept" => true,
@@ -2213,7 +2280,7 @@ fn feed(sc: &mut Scenario, ws: &[&str]) -> LineRes {
                 _ => return bad(),
             };
             match parse_nat(n) {
-                Some(n) if (1..=3).contains(&n) && sc.host.is_none() && sc.narb == 0 && sc.nlines == 0 => {
+                Some(n) if (1..=3).contains(&n) && sc.host.is_none() && sc.narb == 0 && sc.nlines == 0 && sc.runner_mode.is_none() => {
                     sc.host = Some((n, keep));
                     LineRes::Plain("ok".into())
                 }
@@ -2229,7 +2296,7 @@ fn feed(sc: &mut Scenario, ws: &[&str]) -> LineRes {
             LineRes::Plain(format!("ok a{}", sc.narb - 1))
         }
         (10, ["sysarb"]) => {
-            if sc.sys_idx.is_some() || sc.nlines > 0 {
+            if sc.sys_idx.is_some() || sc.nlines > 0 || sc.runner_mode.is_some() {
                 return bad();
             }
             sc.sys_idx = Some(sc.narb);
@@ -2333,7 +2400,7 @@ fn feed(sc: &mut Scenario, ws: &[&str]) -> LineRes {
             // an `Arbiter::new` target (the system arbiter has no owner object), once per target; from the
             // system thread only while the system arbiter is not itself a target (it must stay alive)
             if a >= sc.narb || sc.sys_idx == Some(a) || sc.nlines >= MAX_LINES || sc.ntask + 2 > MAX_TASKS
-                || sc.lates.iter().any(|l| l.0 == a) || (on_sys && sc.sys_idx.is_some()) || sc.selfjoined.iter().any(|x| x.0 == a)
+                || sc.lates.iter().any(|l| l.0 == a) || (on_sys && (sc.sys_idx.is_some() || sc.runner_mode.is_some())) || sc.selfjoined.iter().any(|x| x.0 == a)
             {
                 return bad();
             }
@@ -2357,7 +2424,7 @@ fn feed(sc: &mut Scenario, ws: &[&str]) -> LineRes {
         }
         (10, ["ident"]) => {
             // the system arbiter is always probed; `arb` lines add `Arbiter::new` arbiters
-            if sc.sys_idx.is_some() || sc.nlines > 0 {
+            if sc.sys_idx.is_some() || sc.nlines > 0 || sc.runner_mode.is_some() {
                 return bad();
             }
             sc.done = true;
@@ -3096,6 +3163,47 @@ fn directed_c10(w: &mut dyn Write, rng: &mut Rng, n: &mut usize, thorough: bool)
     // (0) a task running ON an arbiter sends while its thread is held: to its own arbiter through
     // `Arbiter::current()` (`c0`) or a captured handle (`t0`), behind commands / a stop other threads
     // have already sent; to another arbiter; stopping its own arbiter
+    // (000000) the System's runner is never run but DROPPED without a stop — idle all the time (`plain`: the
+    // controller has never been polled) or after a `block_on` (`block`: the controller has registered the
+    // arbiters): the arbiters nobody stopped go on accepting and running commands, in order, on their threads
+    case(w, &[s("runner block"), s("arb"), s("spawn 0 own fn"), s("wait t0"), s("dropsys"), s("spawn 0 h1 fut"), s("spawn 0 own fn"), s("wait t2"), s("stop 0 own")], rng);
+    case(w, &[s("runner plain"), s("arb"), s("arb"), s("dropsys"), s("spawn 0 own fn"), s("spawn 1 h2 pend"), s("wait t0"), s("wait t1"), s("stop 0 h1"), s("stop 1 own")], rng);
+    // … dropped while the arbiters are busy
+    case(w, &[s("@rt=custom"), s("runner block"), s("arb"), s("arb"), s("spawn 0 own gate"), s("wait t0"), s("spawn 0 h1 fn"), s("spawn 1 own block"), s("dropsys"), s("spawn 0 c0 fn"), s("spawn 1 h2 fn"), s("wait t4"), s("open t0"), s("wait t3"), s("late 0 dir"), s("stop 0 own"), s("stop 1 h1")], rng);
+    // … dropped only at the very end
+    case(w, &[s("runner block"), s("arb"), s("spawn 0 own pend"), s("spawn 0 h2 fn"), s("wait t1"), s("stop 0 own")], rng);
+    if thorough {
+        let alpha = ["spawn 0 own fn", "spawn 0 h1 pend", "spawn 0 h2 block", "stop 0 own"];
+        for mode in ["plain", "block"] {
+            for len in 1..=3usize {
+                for code in 0..4usize.pow(len as u32) {
+                    let seq: Vec<usize> = (0..len).map(|i| (code / 4usize.pow(i as u32)) % 4).collect();
+                    for pos in 0..=len {
+                        let mut l = vec![format!("runner {mode}"), s("arb")];
+                        let mut ntask = 0;
+                        for (i, x) in seq.iter().enumerate() {
+                            if i == pos {
+                                l.push(s("dropsys"));
+                            }
+                            l.push(s(alpha[*x]));
+                            if *x < 3 {
+                                ntask += 1;
+                            }
+                        }
+                        if pos == len {
+                            l.push(s("dropsys"));
+                        }
+                        if !seq.contains(&3) {
+                            l.push(s("spawn 0 h1 fn"));
+                            l.push(format!("wait t{ntask}"));
+                            l.push(s("stop 0 own"));
+                        }
+                        case(w, &l, rng);
+                    }
+                }
+            }
+        }
+    }
     // (00000) `pendown`: a pending task that owns what a blocking helper on the arbiter's runtime waits for — the
     // thread must still finish after stop (join returns; the system's run returns when it is the system arbiter)
     case(w, &[s("arb"), s("spawn 0 own pendown"), s("wait t0"), s("spawn 0 h1 fn"), s("wait t1"), s("stop 0 own")], rng);
@@ -3223,10 +3331,17 @@ fn gen_c10(a: &Args, w: &mut dyn Write) {
     for _ in 0..count {
         writeln!(w, "case r{n} c10").unwrap();
         n += 1;
-        if rng.chance(1, 8) {
+        let hosted = rng.chance(1, 8);
+        if hosted {
             writeln!(w, "host {} {}", 1 + rng.below(3), if rng.chance(1, 2) { "kept" } else { "dropped" }).unwrap();
         }
-        let with_sys = rng.chance(1, 3);
+        // a sixth of the cases: the runner is never run but dropped somewhere along the way
+        let dropped_runner = !hosted && rng.chance(1, 6);
+        if dropped_runner {
+            writeln!(w, "runner {}", ["plain", "block", "block"][rng.below(3)]).unwrap();
+        }
+        let mut dropsys_at = if dropped_runner && rng.chance(3, 4) { Some(rng.below(6)) } else { None };
+        let with_sys = !dropped_runner && rng.chance(1, 3);
         let nreal = if with_sys { rng.below(3) } else { 1 + rng.below(2) };
         let narb = nreal + with_sys as usize;
         let sys_pos = rng.below(narb.max(1));
@@ -3239,7 +3354,7 @@ fn gen_c10(a: &Args, w: &mut dyn Write) {
         if rng.chance(1, 3) {
             for i in 0..narb {
                 if !(with_sys && i == sys_pos) && rng.chance(2, 3) {
-                    writeln!(w, "late {i} {}", if with_sys || rng.chance(1, 3) { "dir" } else { "sys" }).unwrap();
+                    writeln!(w, "late {i} {}", if with_sys || dropped_runner || rng.chance(1, 3) { "dir" } else { "sys" }).unwrap();
                     tasks.extend([usize::MAX, usize::MAX]);
                     no_owner[i] = true;
                 }
@@ -3256,7 +3371,11 @@ fn gen_c10(a: &Args, w: &mut dyn Write) {
             held[arb] = Some(tasks.len());
             tasks.push(arb);
         }
-        for _ in 0..len {
+        for step in 0..len {
+            if dropsys_at == Some(step) {
+                writeln!(w, "dropsys").unwrap();
+                dropsys_at = None;
+            }
             let arb = rng.below(narb);
             // while a gate task holds a thread, a third of the commands are sent from inside it
             let inside = (0..narb).find(|a| held[*a].is_some()).filter(|_| rng.chance(1, 3)).map(|ga| {
@@ -3401,6 +3520,8 @@ fn gen_c10(a: &Args, w: &mut dyn Write) {
     writeln!(w, "case bad2 c10\narb\nspawn 0 own fn\nident\narb early\nstop sys-pre 1").unwrap();
     writeln!(w, "case bad3 c10\nhost 0 kept\nhost 4 kept\nhost 1 gone\nhost 2 kept\nhost 1 dropped\nsysarb\nsysarb\narb\narb\narb\nident\nspawn 1 own gate\nspawn 1 own fn\nwait t1\nwait t0\nopen t1\nopen t0\nopen t0\nwait t1\nspawnn 1 own fn 1\nspawnn 1 own fn 301\nspawnn 1 own gate 5\nspawnn 1 h1 fn 3\nspawnn 0 own fut 300\nspawnn 0 own fut 100\nstop 0 own\nstop 1 own\ngo j=9\nstop 2 h2\ngo j=9").unwrap();
     writeln!(w, "case bad4 c10\narb\nhost 1 kept\nspawn 0 own fn\nsysarb\nstop 0 own\ngo j=1").unwrap();
+    writeln!(w, "case bad11 c10\ndropsys\nrunner idle\nrunner block\nrunner plain\nhost 1 kept\nsysarb\ndropsys\narb\nident\nlate 0 sys\nspawn 0 own fn\ndropsys\ndropsys\nwait t0\nstop 0 own\ngo j=10").unwrap();
+    writeln!(w, "case bad12 c10\narb\nrunner block\ndropsys\nstop 0 own\ngo j=11").unwrap();
     writeln!(w, "case bad10 c10\narb\nspawnn 0 own pendown 2\nspawn 0 own pendwn\nspawn 0 own pendown\nstop 0 own\ngo j=9").unwrap();
     writeln!(w, "case bad9 c10\nsysarb\narb\nspawn 0 own blocking\nspawnn 1 own blocking 2\nspawnn 1 own fn 1601\nspawnn 1 own fn 1600\nspawnn 1 h1 fn 800\nspawn 1 h1 blocking\nstop 0 own\nstop 1 own\ngo j=8").unwrap();
     writeln!(w, "case bad7 c10 rt=slow\nsysids 1 5\nsysids 9 5\nsysids 2 0\nsysids 2 1001\nsysids x 1\nsysarb\narb\nspawn 0 own selfjoin\nspawnn 1 own selfjoin 2\nlate 1 dir\nspawn 1 h1 selfjoin\nstop 1 own\nstop 0 own\ngo j=6").unwrap();
